@@ -106,9 +106,9 @@ def run(pid, tier, args):
         n1 += validate_file(wd, tfg, v, pid, "generated")
         # text/scanner based lexers: Go-token alphabet
         traw = os.path.join(wd, "traw.json")
-        gen_lex.write(traw, list("ae1qsnmtd") if tier == "quick" else list("ae1qsnmtdk"), [])
+        gen_lex.write(traw, list("ae1qsnmtdQ") if tier == "quick" else list("ae1qsnmtdkQ"), [])
         extra = os.path.join(wd, "extra.json")
-        json.dump(["x := \"h\u00e9llo\"\n\ty /* c\nc */ 12.5e3\r\n`raw\n\u00e9` 'c' // tail", "a\n\nb\n", "\u00e9\u00e9 \u00e9\n \u00e9", "  \n  ", "\n", "a // c\n", "\"\\n\" x"], open(extra, "w"))
+        json.dump(["x := \"h\u00e9llo\"\n\ty /* c\nc */ 12.5e3\r\n`raw\n\u00e9` 'c' // tail", "a = `one\r\ntwo\r` b", "`\r`", "a\n\nb\n", "\u00e9\u00e9 \u00e9\n \u00e9", "  \n  ", "\n", "a // c\n", "\"\\n\" x"], open(extra, "w"))
         tf2 = os.path.join(wd, "text.ndjson")
         vlib.vh(vhbin, ["lexstream-record", traw, "4" if tier == "quick" else "5", "text,textcfg", extra], outfile=tf2)
         n2 = validate_file(wd, tf2, v, pid, "text/scanner")
